@@ -154,6 +154,7 @@ def run_discovery(spec, fms, res):
         except Exception as e:  # noqa
             raised = e
         exp = discovery_model(spec, fms)
+        res.visit("pkg", json.dumps(spec, sort_keys=True), fms)
         res.executions += 1
         res.checks += 1
         inits = [r[0][5:] for r in R._G.log if r[0].startswith("init:")]
@@ -348,6 +349,7 @@ def run_history(ch, nops, sel, res):
             menu = life_menu(ops, restricted=(sel == "restricted"))
             op = menu[ch.choose(len(menu), "op")]
             ops.append(op)
+            res.visit("life", started, cur, auto_str, chooser, op[0])
             if op[0] == "start":
                 env.advance(1)
                 t_start = env.now()
@@ -513,7 +515,6 @@ def main(tier, seed):
             res.merge(d)
         for d in pool.run("mc.props.c14", "work_run", run_items, seed=seed):
             res.merge(d)
-    res.states = len(fam) * 2
     res.bounds.update(packages=len(fam), class_variants=len(VARIANTS), lifecycle_ops=nops, selection_pass_ops=deep, selections=[list(s) for s in SELECTIONS], run_history_depth=4 if tier == "quick" else 6)
     rule = (
         "(A) every generated package in the family (1-2 modules [thorough: 3], 0-2 classes per module, 9 class variants over MODE_NAME / DISABLED / DEFAULT / "
